@@ -10,6 +10,10 @@ CONSTANTS
   MaxQ = 1
   MaxId = 0
   KaVals = {}
+  XQs = {}
+  XfrIds = {}
+  XfrAll = FALSE
+  QVars = {}
   EndKinds = {"eof", "short", "trunc", "wfail", "stall"}
   Frames <- MCFrames
 SPECIFICATION Spec
